@@ -58,6 +58,10 @@ type Program struct {
 	callAt   map[token.Pos]*CallSite
 	modsets  map[*ssa.Function]map[types.Object]bool
 	fnOfSSA  map[*ssa.Function]*FuncSrc
+	effects  *Effects
+	srcSSA   map[*FuncSrc][]*ssa.Function
+	facts    *FactEngine
+	callers  map[*FuncSrc][]callerSite
 }
 
 // FuncSrc is a source function (declaration or literal) of the module.
@@ -568,4 +572,81 @@ func ssaFuncName(f *ssa.Function) string {
 	s = strings.ReplaceAll(s, modPath+"/", "")
 	s = strings.ReplaceAll(s, modPath+".", "main.")
 	return s
+}
+
+type callerSite struct {
+	cs   *CallSite // nil when the caller is outside module source
+	isGo bool
+	from string
+}
+
+// CallersOf returns the call sites (call graph in-edges) of a source function.
+func (p *Program) CallersOf(fs *FuncSrc) []callerSite {
+	if p.callers == nil {
+		p.callers = map[*FuncSrc][]callerSite{}
+		cg := p.CallGraph()
+		for fn, n := range cg.Nodes {
+			if fn == nil || !fnInModule(fn) {
+				continue
+			}
+			src := p.SrcOfSSA(fn)
+			if src == nil {
+				continue
+			}
+			for _, e := range n.In {
+				cs := callerSite{from: ssaFuncName(e.Caller.Func)}
+				if e.Site != nil {
+					if _, ok := e.Site.(*ssa.Go); ok {
+						cs.isGo = true
+					}
+					if site, ok := p.callAt[e.Site.Pos()]; ok {
+						cs.cs = site
+					}
+				}
+				dup := false
+				for _, old := range p.callers[src] {
+					if old.cs == cs.cs && old.from == cs.from && old.isGo == cs.isGo {
+						dup = true
+					}
+				}
+				if !dup {
+					p.callers[src] = append(p.callers[src], cs)
+				}
+			}
+		}
+		for _, l := range p.callers {
+			sort.Slice(l, func(i, j int) bool {
+				pi, pj := token.NoPos, token.NoPos
+				if l[i].cs != nil {
+					pi = l[i].cs.Call.Lparen
+				}
+				if l[j].cs != nil {
+					pj = l[j].cs.Call.Lparen
+				}
+				if pi != pj {
+					return pi < pj
+				}
+				return l[i].from < l[j].from
+			})
+		}
+	}
+	return p.callers[fs]
+}
+
+// Facts returns the shared must-fact engine.
+func (p *Program) Facts() *FactEngine {
+	if p.facts == nil {
+		p.facts = NewFactEngine(p)
+	}
+	return p.facts
+}
+
+// CallSites returns every call expression of module source, in position order.
+func (p *Program) CallSites() []*CallSite {
+	var out []*CallSite
+	for _, cs := range p.callAt {
+		out = append(out, cs)
+	}
+	sort.Slice(out, func(i, j int) bool { return out[i].Call.Lparen < out[j].Call.Lparen })
+	return out
 }
